@@ -167,6 +167,22 @@ def preslice_guarded(f):
     return hits[0]
 
 
+def open_clears_cache(tree):
+    """True when DataLoader.open() assigns an empty dict to self.data (before or after creating the reader)"""
+    for n in tree.body:
+        if isinstance(n, ast.ClassDef) and n.name == 'DataLoader':
+            for f in n.body:
+                if isinstance(f, ast.FunctionDef) and f.name == 'open':
+                    for st in ast.walk(f):
+                        if isinstance(st, ast.Assign) and any(ast.unparse(t) == 'self.data' for t in st.targets):
+                            v = ast.unparse(st.value).replace(' ', '')
+                            if v in ('{}', 'dict()'):
+                                return True
+                            raise RuntimeError('gen_c12: open() assigns %s to self.data' % v)
+                    return False
+    raise RuntimeError('gen_c12: DataLoader.open not found')
+
+
 def generate():
     txt = vf.repo_file(SRC)
     f = _read_func(ast.parse(txt))
@@ -174,6 +190,7 @@ def generate():
     guarded = break_guarded(f)
     sampled = none_sources_sampled(f)
     psg = preslice_guarded(f)
+    ocl = open_clears_cache(ast.parse(txt))
     # the reader (C10's file): does filter_in_place() intersect explicitly requested source ids with the sampled set?
     import re
     rtxt = vf.repo_file('python/fusion_engine_client/parsers/mixed_log_reader.py')
@@ -201,6 +218,7 @@ def generate():
     text += 'Definition break_guarded_by_deque : bool := %s.\n' % ('true' if guarded else 'false')
     text += 'Definition preslice_guarded_by_read_time_tests : bool := %s.\n' % ('true' if psg else 'false')
     text += 'Definition reader_intersects_sampled_sources : bool := %s.\n' % ('true' if intersects else 'false')
+    text += 'Definition open_clears_cache : bool := %s.\n' % ('true' if ocl else 'false')
     text += 'Definition none_sources_sampled : bool := %s.\n' % ('true' if sampled else 'false')
     text += 'Definition all_types : list N := %s.\n' % nl(info['all'])
     text += 'Definition p1_types : list N := %s.\n' % nl(info['p1'])
@@ -211,7 +229,7 @@ def generate():
         info['align']['NONE'], info['align']['DROP'], info['align']['INSERT'])
     text += 'Definition source_probe_count : nat := %d.\n' % int(info['probe'])
     vf.write_if_changed(os.path.join(vf.THEORIES, 'Generated', 'DataLoaderConsts.v'), text)
-    return {'params_keys': keys, 'break_guarded_by_deque': guarded, 'none_sources_sampled': sampled, 'preslice_guarded': psg, 'reader_intersects_sampled_sources': intersects, 'names': info['names'], 'n_types': len(info['all']),
+    return {'params_keys': keys, 'break_guarded_by_deque': guarded, 'none_sources_sampled': sampled, 'preslice_guarded': psg, 'open_clears_cache': ocl, 'reader_intersects_sampled_sources': intersects, 'names': info['names'], 'n_types': len(info['all']),
             'probe': int(info['probe'])}
 
 
